@@ -31,6 +31,14 @@ use super::{Answer, Error, IdentityAnswer, Query, QueryProtocol};
 pub struct InboundQueryService {
     room_sender: UnboundedSender<Uid>,
 }
+#[cfg(feature = "verif")]
+impl InboundQueryService {
+    /// verification: a handle whose room notifications are read by the harness instead of the service task
+    pub fn verif_detached() -> (Self, mpsc::UnboundedReceiver<Uid>) {
+        let (room_sender, room_receiver) = mpsc::unbounded_channel::<Uid>();
+        (Self { room_sender }, room_receiver)
+    }
+}
 impl InboundQueryService {
     #[allow(clippy::too_many_arguments)]
     pub fn start(
